@@ -647,6 +647,7 @@ type cliCase struct {
 	Recs        []gen.Rec `json:"recs"`
 	OutOpt      string    `json:"out_opt"`      // "" | --fasta-output | --fastq-output
 	DefTrailing bool      `json:"def_trailing"` // input file: definition written after the JSON object instead of inside it
+	Debug       bool      `json:"debug"`        // --debug on every obiconvert run: the log level must not change what is written
 }
 
 var cliSeq atomic.Int64
@@ -757,6 +758,9 @@ func checkCLI(c cliCase) error {
 	}
 	defer os.RemoveAll(dir)
 	args := []string{"--no-progressbar"}
+	if c.Debug {
+		args = append(args, "--debug")
+	}
 	if c.OutOpt != "" {
 		args = append(args, c.OutOpt)
 	}
@@ -1018,7 +1022,22 @@ func TestPropRoundTrip(t *testing.T) {
 		for i := 0; i < n; i++ {
 			c.Recs = append(c.Recs, gen.Record(rt, fmt.Sprintf("r%d", i), opt))
 		}
+		hugeTitle := 0
+		if rapid.IntRange(0, 39).Draw(rt, "huge_title") == 0 {
+			// what obiuniq -m sample writes for a few thousand samples: a title line of tens of kilobytes
+			// (beyond bufio's 4 KiB and a 64 KiB scanner token)
+			hugeTitle = rapid.SampledFrom([]int{400, 2500, 6000}).Draw(rt, "n_samples")
+			m := map[string]int64{}
+			for k := 0; k < hugeTitle; k++ {
+				m[fmt.Sprintf("sample_%05d", k)] = int64(k%17 + 1)
+			}
+			i := rapid.IntRange(0, n-1).Draw(rt, "huge_title_rec")
+			c.Recs[i].Annots = append(c.Recs[i].Annots, gen.Annot{Key: "merged_verifsample", Val: gen.Val{Kind: "mapint", MapInt: m}})
+		}
 		set := map[string]bool{"fmt:" + c.Format: true, fmt.Sprintf("offset:%d", c.Shift): true, "parser:" + c.Parser: true, fmt.Sprintf("nrec:%d", n): true}
+		if hugeTitle > 0 {
+			set[fmt.Sprintf("title_with_%d_samples", hugeTitle)] = true
+		}
 		nontrivial := false
 		for _, r := range c.Recs {
 			if recClasses(r, set) {
@@ -1048,6 +1067,7 @@ func TestPropCLI(t *testing.T) {
 			c.OutOpt = rapid.SampledFrom([]string{"", "--fasta-output"}).Draw(rt, "outopt")
 		}
 		c.DefTrailing = rapid.IntRange(0, 3).Draw(rt, "def_trailing") == 0
+		c.Debug = rapid.IntRange(0, 4).Draw(rt, "debug") == 0
 		set := map[string]bool{"cli_out:" + c.OutOpt: true, fmt.Sprintf("cli_in_fastq:%v", q > 0): true}
 		nontrivial := false
 		for _, r := range c.Recs {
